@@ -80,7 +80,7 @@ def replay_worker(worker, data, payload_extra=None):
         return False
     p = {"cfg": cfg}
     p.update(payload_extra or {})
-    for k in ("other", "partitions", "prehistory"):
+    for k in ("other", "partitions", "prehistory", "long_extension"):
         if k in v:
             p[k] = v[k]
     r = worker(p)
